@@ -24,6 +24,7 @@ translation tie; it is deliberately conservative: when a precondition above is n
 touched and the translator decides (usually: refuses)."""
 import ast
 import copy
+import os
 
 IMMUTABLE_CALLS = {"bytes"}
 
@@ -923,6 +924,226 @@ def swap_is_not_none(tree):
         return stmts
     tree.body = _map_body(tree.body, f)
     return tree
+
+
+# ---------------------------------------------------------------------------------------------------------------------
+# housekeeping: statements and annotations that cannot influence what any existing function computes
+
+_PINNED_DIR = os.path.join(os.path.dirname(os.path.abspath(__file__)), "pinned_src")
+_TDES_TARGETS = ("cryptography.hazmat.primitives.ciphers.algorithms", "cryptography.hazmat.decrepit.ciphers.algorithms")
+HARMLESS_DECORATORS = {"staticmethod", "classmethod", "property", "_typing.final", "_t.final", "_typing.overload", "_t.overload"}
+_HARMLESS_CALLS = {"_logging.getLogger", "logging.getLogger", "_typing.TypeVar", "_t.TypeVar", "typing.TypeVar",
+                   "_typing.NewType", "_t.NewType", "frozenset", "tuple"}
+
+
+def _pure_type_expr(e):
+    """names, dotted names, subscripts, `|`, tuples / lists of those, `None`, `...`, string constants: evaluating such an
+    annotation has no effect on anything but `__annotations__`"""
+    if e is None:
+        return True
+    if isinstance(e, ast.Name):
+        return True
+    if isinstance(e, ast.Attribute):
+        return _pure_type_expr(e.value)
+    if isinstance(e, ast.Constant):
+        return e.value is None or e.value is Ellipsis or isinstance(e.value, (str, int, bytes, bool))
+    if isinstance(e, ast.Subscript):
+        return _pure_type_expr(e.value) and _pure_type_expr(e.slice)
+    if isinstance(e, ast.BinOp) and isinstance(e.op, ast.BitOr):
+        return _pure_type_expr(e.left) and _pure_type_expr(e.right)
+    if isinstance(e, (ast.Tuple, ast.List)):
+        return all(_pure_type_expr(x) for x in e.elts)
+    return False
+
+
+def _param_names(fn):
+    a = fn.args
+    return ([p.arg for p in a.posonlyargs], [p.arg for p in a.args], [p.arg for p in a.kwonlyargs],
+            a.vararg.arg if a.vararg else None, a.kwarg.arg if a.kwarg else None)
+
+
+def _defs_by_qualname(tree):
+    out = {}
+    for n in tree.body:
+        if isinstance(n, ast.FunctionDef):
+            out.setdefault(n.name, []).append(n)
+        elif isinstance(n, ast.ClassDef):
+            for m in n.body:
+                if isinstance(m, ast.FunctionDef):
+                    out.setdefault(f"{n.name}.{m.name}", []).append(m)
+    return out
+
+
+def restore_pinned_annotations(tree, module):
+    """Annotations are never consulted at run time by this library (decorators, which could, are refused elsewhere), so
+    a function whose parameter names are those of the snapshot keeps the snapshot's annotations whatever the current
+    ones say — provided the current ones are pure type expressions (nothing that is called while the `def` executes)."""
+    path = os.path.join(_PINNED_DIR, module + ".py")
+    if not os.path.exists(path):
+        return tree
+    pinned = _defs_by_qualname(ast.parse(open(path).read()))
+    for q, fns in _defs_by_qualname(tree).items():
+        olds = pinned.get(q)
+        if not olds or len(olds) != len(fns):
+            continue
+        for fn, old in zip(fns, olds):
+            if _param_names(fn) != _param_names(old):
+                continue
+            a, b = fn.args, old.args
+            cur = a.posonlyargs + a.args + a.kwonlyargs + ([a.vararg] if a.vararg else []) + ([a.kwarg] if a.kwarg else [])
+            ref = b.posonlyargs + b.args + b.kwonlyargs + ([b.vararg] if b.vararg else []) + ([b.kwarg] if b.kwarg else [])
+            if not all(_pure_type_expr(p.annotation) for p in cur) or not _pure_type_expr(fn.returns):
+                continue
+            for p, r in zip(cur, ref):
+                p.annotation = copy.deepcopy(r.annotation)
+            fn.returns = copy.deepcopy(old.returns)
+    return tree
+
+
+def _loads(node):
+    return {n.id for n in ast.walk(node) if isinstance(n, ast.Name) and isinstance(n.ctx, ast.Load)}
+
+
+def _harmless_value(e):
+    if e is None or _is_const_expr(e) or _pure_type_expr(e):
+        return True
+    if isinstance(e, ast.Call) and ast.unparse(e.func) in _HARMLESS_CALLS and not any(isinstance(a, ast.Starred) for a in e.args):
+        return all(_harmless_value(a) or (isinstance(a, ast.Name) and a.id == "__name__") for a in e.args) \
+            and all(k.arg and _harmless_value(k.value) for k in e.keywords)
+    if isinstance(e, (ast.Tuple, ast.List, ast.Set)):
+        return all(_harmless_value(x) for x in e.elts)
+    return False
+
+
+def inert_class(n):
+    """a class definition that cannot change what existing functions and classes do: no decorators beyond the harmless
+    ones, no metaclass / keywords, bases that are plain (dotted) names, and a body of docstrings, `pass`, harmless
+    assignments to plain names and plain method definitions"""
+    if not isinstance(n, ast.ClassDef) or n.keywords:
+        return False
+    if any(ast.unparse(d) not in HARMLESS_DECORATORS for d in n.decorator_list):
+        return False
+    if not all(_pure_type_expr(b) and isinstance(b, (ast.Name, ast.Attribute)) for b in n.bases):
+        return False
+    for st in n.body:
+        if isinstance(st, ast.Expr) and isinstance(st.value, ast.Constant):
+            continue
+        if isinstance(st, ast.Pass):
+            continue
+        if isinstance(st, ast.FunctionDef) and all(ast.unparse(d) in HARMLESS_DECORATORS for d in st.decorator_list) \
+                and st.name not in ("__init_subclass__", "__class_getitem__", "__set_name__"):
+            continue
+        if isinstance(st, ast.Assign) and all(isinstance(t, ast.Name) for t in st.targets) and _harmless_value(st.value):
+            continue
+        if isinstance(st, ast.AnnAssign) and isinstance(st.target, ast.Name) and _harmless_value(st.value) and _pure_type_expr(st.annotation):
+            continue
+        return False
+    return True
+
+
+def tdes_identity_checked():
+    """the two import locations of TripleDES name one class in the installed `cryptography` (checked, not assumed)"""
+    try:
+        import importlib
+        import warnings
+        with warnings.catch_warnings():
+            warnings.simplefilter("ignore")
+            mods = [importlib.import_module(m) for m in _TDES_TARGETS]
+        return mods[0].TripleDES is mods[1].TripleDES
+    except Exception:  # noqa: BLE001
+        return False
+
+
+def housekeeping(tree, module):
+    """Drops / neutralises what provably cannot change the behaviour of an existing function:
+    `from __future__ import annotations`; `if TYPE_CHECKING:` blocks of imports; annotations (see above); module-level
+    assignments of harmless values (constants, type expressions, a logger, a TypeVar) to names no function or class
+    body reads; TripleDES imported from either of its two locations, also through `try … except ImportError`, is
+    spelled `_algorithms.TripleDES`."""
+    body = []
+    tdes_names, alg_names = set(), set()
+    def import_tdes(n):
+        """names bound to the TripleDES class / to a module that holds it, by this import; None if it is another import"""
+        if not isinstance(n, ast.ImportFrom) or n.level:
+            return None
+        got_c, got_m = set(), set()
+        for a in n.names:
+            if n.module in _TDES_TARGETS and a.name == "TripleDES":
+                got_c.add(a.asname or a.name)
+            elif f"{n.module}.{a.name}" in _TDES_TARGETS and (a.asname or a.name) != "_algorithms":
+                got_m.add(a.asname or a.name)
+            elif f"{n.module}.{a.name}" == _TDES_TARGETS[1] and (a.asname or a.name) == "_algorithms":
+                got_m.add("_algorithms")
+            else:
+                return None
+        return got_c, got_m
+    for n in tree.body:
+        if isinstance(n, ast.ImportFrom) and n.module == "__future__" and not n.level:
+            continue
+        if isinstance(n, ast.If) and ast.unparse(n.test) in ("_typing.TYPE_CHECKING", "_t.TYPE_CHECKING", "typing.TYPE_CHECKING", "TYPE_CHECKING") \
+                and not n.orelse and all(isinstance(x, (ast.Import, ast.ImportFrom, ast.Pass)) for x in n.body) \
+                and ast.unparse(n.test) != "TYPE_CHECKING":
+            continue
+        if isinstance(n, ast.Try) and len(n.body) == 1 and len(n.handlers) == 1 and not n.orelse and not n.finalbody \
+                and n.handlers[0].name is None and n.handlers[0].type is not None \
+                and ast.unparse(n.handlers[0].type) in ("ImportError", "ModuleNotFoundError", "(ImportError, ModuleNotFoundError)", "(ModuleNotFoundError, ImportError)") \
+                and len(n.handlers[0].body) == 1:
+            a, b = import_tdes(n.body[0]), import_tdes(n.handlers[0].body[0])
+            if a is not None and b is not None and a == b and (a[0] or a[1]) and tdes_identity_checked():
+                tdes_names |= a[0]; alg_names |= a[1]
+                continue
+        t = import_tdes(n)
+        if t is not None and (t[0] or t[1]) and tdes_identity_checked():
+            tdes_names |= t[0]; alg_names |= t[1]
+            continue
+        body.append(n)
+    tree.body = body
+    if tdes_names or alg_names:
+        stores = {x.id for x in ast.walk(tree) if isinstance(x, ast.Name) and isinstance(x.ctx, (ast.Store, ast.Del))}
+        stores |= {x.arg for x in ast.walk(tree) if isinstance(x, ast.arg)}
+        if (tdes_names | alg_names) - {"_algorithms"} & stores:
+            raise Binding(f"a name imported as TripleDES / its module is re-bound: {sorted((tdes_names | alg_names) & stores)}")
+        class T(ast.NodeTransformer):
+            def visit_Attribute(self, n):
+                self.generic_visit(n)
+                if isinstance(n.value, ast.Name) and n.value.id in alg_names and n.value.id != "_algorithms":
+                    if n.attr != "TripleDES":
+                        raise Binding(f"`{ast.unparse(n)}`: only TripleDES is read from that module")
+                    n.value = ast.copy_location(ast.Name(id="_algorithms", ctx=ast.Load()), n.value)
+                return n
+            def visit_Name(self, n):
+                if n.id in tdes_names and isinstance(n.ctx, ast.Load):
+                    return ast.copy_location(ast.Attribute(value=ast.Name(id="_algorithms", ctx=ast.Load()), attr="TripleDES", ctx=ast.Load()), n)
+                return n
+        tree = T().visit(tree)
+    tree = restore_pinned_annotations(tree, module)
+    # module-level names bound to harmless values that no function / class body and no other module-level expression reads
+    read_elsewhere = set()
+    candidates = {}
+    for n in tree.body:
+        tgt = None
+        if isinstance(n, ast.Assign) and len(n.targets) == 1 and isinstance(n.targets[0], ast.Name) and _harmless_value(n.value):
+            tgt = n.targets[0].id
+        elif isinstance(n, ast.AnnAssign) and isinstance(n.target, ast.Name) and n.simple and _harmless_value(n.value) and _pure_type_expr(n.annotation):
+            tgt = n.target.id
+        if tgt is not None and not (tgt.startswith("__") and tgt.endswith("__")):
+            candidates.setdefault(tgt, []).append(n)
+        else:
+            read_elsewhere |= _loads(n)
+            if isinstance(n, (ast.FunctionDef, ast.ClassDef)):
+                # annotations and decorators are loads too (already counted by _loads)
+                pass
+    bound_elsewhere = set()
+    for n in ast.walk(tree):
+        if isinstance(n, (ast.Global, ast.Nonlocal)):
+            bound_elsewhere |= set(n.names)
+    drop = set()
+    for name, sts in candidates.items():
+        if len(sts) == 1 and name not in read_elsewhere and name not in bound_elsewhere \
+                and not any(name in _loads(x) for c, ss in candidates.items() if c != name for x in ss):
+            drop.add(id(sts[0]))
+    tree.body = [n for n in tree.body if id(n) not in drop]
+    return ast.fix_missing_locations(tree)
 
 
 def normalise_light(tree, signatures=None, aliases=None):
